@@ -404,6 +404,22 @@ class RenderContext:
         ):
             raise LoopIterationLimitError("loop iteration limit reached", token=None)
 
+    @contextmanager
+    def loop_iterations(self, length: int) -> Iterator[RenderContext]:
+        """Count a block that is repeated _length_ times towards the loop iteration limit.
+
+        For tags that repeat a block or partial template without pushing a `ForLoop`
+        onto the loop stack (`tablerow`, and `include` and `render` with an array).
+        For the duration of the `with` block, nested loops and copied render contexts
+        multiply their length by _length_, just as they do inside a `for` loop.
+        """
+        carry = self.loop_iteration_carry
+        self.loop_iteration_carry = carry * max(length, 1)
+        try:
+            yield self
+        finally:
+            self.loop_iteration_carry = carry
+
     def copy(
         self,
         namespace: Mapping[str, object],
